@@ -236,19 +236,25 @@ theorem reject_names_present_defect (ws : Bytes) (ps : List Pkg) (hws : isAbs ws
 
 /-! ### nothing runs on reject -/
 
-/-- `build` and `check` reach the executor only after `accept`: if the analysis rejects, the run consists
-    of the diagnostic and the failing exit, whatever the command -/
-theorem reject_runs_nothing (c : Cmd) (ws : Bytes) (ps : List Pkg) (k : Kind)
+/-- `build`, `test`, `run` and `check` reach the executor only after `accept` of the WHOLE loaded graph: if the
+    analysis rejects, the run consists of the diagnostic and the failing exit — whatever the command and whatever
+    target patterns or tag filters were given (a defect outside the selected part still stops everything) -/
+theorem reject_runs_nothing (r : Request) (ws : Bytes) (ps : List Pkg) (k : Kind)
     (h : analyze ws ps = .reject k) :
-    runCmd Cfg.current c ws ps = [.diagnostic k, .exitFail] ∧ Ev.execute ∉ runCmd Cfg.current c ws ps := by
+    runCmd Cfg.current r ws ps = [.diagnostic k, .exitFail] ∧ Ev.execute ∉ runCmd Cfg.current r ws ps := by
   have h' : analyzeWith Cfg.current ws ps = .reject k := h
   simp [runCmd, h']
 
-/-- and conversely the executor is started only by `build` on an accepted graph -/
-theorem executes_iff (c : Cmd) (ws : Bytes) (ps : List Pkg) :
-    Ev.execute ∈ runCmd Cfg.current c ws ps ↔ c = .build ∧ analyze ws ps = .accept := by
+/-- and conversely the executor is started exactly by `build` / `test` / `run` on an accepted graph -/
+theorem executes_iff (r : Request) (ws : Bytes) (ps : List Pkg) :
+    Ev.execute ∈ runCmd Cfg.current r ws ps ↔ r.cmd ≠ .check ∧ analyze ws ps = .accept := by
   unfold analyze runCmd
-  cases analyzeWith Cfg.current ws ps <;> cases c <;> simp
+  cases analyzeWith Cfg.current ws ps <;> cases r.cmd <;> simp
+
+/-- a request that selects only a valid package of a graph that is invalid elsewhere -/
+example : runCmd Cfg.current ⟨.build, [[47, 47, 112, 47, 46, 46, 46]], []⟩ exWs
+    [⟨[exB], [⟨⟨[112], [97, 108]⟩, ⟨[], [97]⟩⟩]⟩, ⟨[{ exA with inputs := [[46, 46, 47, 115]] }], []⟩]
+    = [.diagnostic .inputEscape, .exitFail] := by decide
 
 example : analyze exWs [⟨[{ exA with deps := [⟨[], [97]⟩] }], []⟩] = .reject .selfLoop := by decide
 
